@@ -434,7 +434,7 @@ class Work(object):
                     idx += 1
                     if ctx.mine(idx):
                         self.ep_hash_case(cv, fn, gen_msg(rng, n))
-            for it in range(ctx.n(110, 2500)):
+            for it in range(ctx.n(200, 2500)):
                 fn = rng.choice(fl)
                 self.ep_hash_case(cv, fn, gen_msg(rng, rng.choice(LENS + [rng.randrange(0, 200)] * 6)))
             # ---- the direct entry point
@@ -446,7 +446,7 @@ class Work(object):
                 else:
                     exc = cv.E2.sswu_exceptional(cv.u)
                 cv.exc = set(exc)
-                self.info.setdefault("exceptional_field_elements", {})[nm] = len(exc)
+                self.info.setdefault("exceptional_field_elements", {})[nm] = str(len(exc))
                 rt = lambda: rng.randrange(p)
                 directed = [("t0=0", 0, rt()), ("t1=0", rt(), 0), ("both0", 0, 0), ("t=1", 1, rt()), ("t=-1", p - 1, rt()),
                             ("t=1,-1", 1, p - 1), ("t=2", 2, rt())]
@@ -466,7 +466,7 @@ class Work(object):
                 idx += 1
                 if ctx.mine(idx):
                     self.ep_rnd_short(cv)
-                for it in range(ctx.n(60, 1500)):
+                for it in range(ctx.n(120, 1500)):
                     self.ep_rnd_case(cv, "uniform", rt(), rt())
             # ---- determinism
             others = [(n2, i2) for n2, i2 in ids if n2 != nm]
@@ -615,7 +615,7 @@ class Work(object):
                     idx += 1
                     if ctx.mine(idx):
                         self.ep2_hash_case(tw, fn, gen_msg(rng, n))
-            for it in range(ctx.n(150, 3000)):
+            for it in range(ctx.n(250, 3000)):
                 self.ep2_hash_case(tw, rng.choice(fns), gen_msg(rng, rng.choice(LENS + [rng.randrange(0, 200)] * 6)))
             others = [x for x in names if x != name]
             for fn in fns:
